@@ -92,6 +92,17 @@ QVec(v) == <<PConst(v[1]), PConst(v[2]), PConst(v[3]), PZero>>
 \* rotation of a vector: the vector part of q v q*   (a polynomial identity for every q, unit or not)
 QRotP(q, v) == QMulP(QMulP(QOf(q), QVec(v)), QConjP(QOf(q)))
 
+\* vector-valued polynomials, component i
+PC(x) == PConst(x)
+PLerp(a, b, t, i) == PAdd(PSub(PC(a[i]), PMul(PC(t), PC(a[i]))), PMul(PC(t), PC(b[i])))           \* a + t (b - a)
+PHalf == PC(Dy(Z1, -1))
+PMid(a, b, i) == PAdd(PMul(PHalf, PC(a[i])), PMul(PHalf, PC(b[i])))
+PTwo == PC(DyInt(2))
+PReflect(a, nrm, i) == PSub(PC(a[i]), PMul(PMul(PTwo, PDot(a, nrm)), PC(nrm[i])))                 \* a - 2 (a.n) n
+PProjN(a, nrm, i) == PMul(PDot(a, nrm), PC(nrm[i]))                                               \* (a.n) n
+PRejN(a, nrm, i) == PSub(PC(a[i]), PProjN(a, nrm, i))
+PDist2(a, b) == PSumSeq([k \in 1..Len(a) |-> PMul(PSub(PC(a[k]), PC(b[k])), PSub(PC(a[k]), PC(b[k])))], 1)
+
 DV(s) == [i \in 1..Len(s) |-> DecD(s[i])]
 DM(m) == [c \in 1..Len(m) |-> DV(m[c])]
 PBits(ev) == IF ev.f = 32 THEN 24 ELSE 53
@@ -102,6 +113,9 @@ KOf(op, n) ==
       [] op \in {"cross", "perp_dot"} -> 6
       [] op = "affine_point" -> n + 6
       [] op = "det" -> IF n = 2 THEN 6 ELSE IF n = 3 THEN 12 ELSE 24
+      [] op \in {"lerp", "midpoint"} -> 6
+      [] op \in {"reflect", "project_onto_normalized", "reject_from_normalized"} -> n + 8
+      [] op = "distance_squared" -> n + 6
       [] op = "quat_mul" -> 10
       [] op = "quat_rot" -> 20
 
@@ -122,6 +136,17 @@ Ok(ev) ==
       [] ev.op = "affine_point" ->          \* linear part m (n columns), translation t, point v:  m v + t
                             LET M == DM(ev.m) t == DV(ev.t) v == DV(ev.v) g == DV(ev.got) IN
                             \A r \in 1..Len(g) : Within(PAdd(PMatVec(M, v, r), PConst(t[r])), g[r], KOf("affine_point", Len(M)), pb)
+      [] ev.op = "lerp" -> LET a == DV(ev.a) b == DV(ev.b) t == DecD(ev.t) g == DV(ev.got) IN
+                            \A i \in 1..Len(a) : Within(PLerp(a, b, t, i), g[i], KOf("lerp", Len(a)), pb)
+      [] ev.op = "midpoint" -> LET a == DV(ev.a) b == DV(ev.b) g == DV(ev.got) IN
+                            \A i \in 1..Len(a) : Within(PMid(a, b, i), g[i], KOf("midpoint", Len(a)), pb)
+      [] ev.op = "reflect" -> LET a == DV(ev.a) b == DV(ev.b) g == DV(ev.got) IN
+                            \A i \in 1..Len(a) : Within(PReflect(a, b, i), g[i], KOf("reflect", Len(a)), pb)
+      [] ev.op = "project_onto_normalized" -> LET a == DV(ev.a) b == DV(ev.b) g == DV(ev.got) IN
+                            \A i \in 1..Len(a) : Within(PProjN(a, b, i), g[i], KOf("project_onto_normalized", Len(a)), pb)
+      [] ev.op = "reject_from_normalized" -> LET a == DV(ev.a) b == DV(ev.b) g == DV(ev.got) IN
+                            \A i \in 1..Len(a) : Within(PRejN(a, b, i), g[i], KOf("reject_from_normalized", Len(a)), pb)
+      [] ev.op = "distance_squared" -> LET a == DV(ev.a) b == DV(ev.b) IN Within(PDist2(a, b), DecD(ev.got), KOf("distance_squared", Len(a)), pb)
       [] ev.op = "quat_mul" -> LET p == DV(ev.a) q == DV(ev.b) g == DV(ev.got) P == QMulP(QOf(p), QOf(q)) IN
                             \A i \in 1..4 : Within(P[i], g[i], KOf("quat_mul", 4), pb)
       [] ev.op = "quat_rot" -> LET q == DV(ev.a) v == DV(ev.v) g == DV(ev.got) P == QRotP(q, v) IN
